@@ -29,9 +29,10 @@ structure Cfg where
   illTypedKeepsAlive : Bool   -- C14-c repaired: a failing `check` stops the actor only in `Init`
   runFailStops       : Bool   -- C17-a repaired: a failed run RPC stops the leader even without destination
   constsFailStops    : Bool   -- C17-b repaired: a failed consts RPC makes the consts task send `Stop` instead of `InternalConstsSent` (Net model)
+  constsSenderCheck  : Bool   -- C14-d repaired: constants are only accepted from one of the OTHER participants
 deriving Repr
-def Cfg.pinned : Cfg := ⟨false, false, false, false, false⟩
-def Cfg.repaired : Cfg := ⟨true, true, true, true, true⟩
+def Cfg.pinned : Cfg := ⟨false, false, false, false, false, false⟩
+def Cfg.repaired : Cfg := ⟨true, true, true, true, true, true⟩
 /-- the configuration that models `/repo` as it is now (all five repairs are `fix:` commits). The correspondence harness and
     the C13/C16 theorems use this one; `Cfg.pinned` is kept for the counterexample theorems that show each guard is needed. -/
 def Cfg.current : Cfg := Cfg.repaired
@@ -148,6 +149,11 @@ def step (cfg : Cfg) (s : St) (c : Cmd) : St × List Eff :=
       else ({ s with kind := .executing, permit := false }, [.spawnMpcTask])             -- the permit moves into the MPC task
     | none => (s, [.panic "unreachable"])
   | .consts sender ne =>
+    -- a sender that is not one of the other participants is refused in the states that accept constants (in the others the state test refuses anyway)
+    if cfg.constsSenderCheck && (match s.kind, s.pol with
+        | .validated, some p | .sendingConsts, some p | .sendingConstsCompleted, some p => decide (p.n ≤ sender) || sender == p.party
+        | _, _ => false)
+    then (s, [.reply "consts" false "UnknownSender"]) else
     match s.kind, s.pol with
     | .validated, _ | .sendingConsts, _ => (insertConsts s sender ne, [.reply "consts" true ""])
     | .sendingConstsCompleted, some p =>
